@@ -39,8 +39,10 @@ class IndicatorBounds(IndicatorConstraint):
         super().__init__(**data)
 
         if self.lower_bound is None and self.upper_bound is None:
-            raise AssertionError(
-                "lower and upper bounds cannot be set to None, either one of them must be set"
+            self._refuse(
+                AssertionError(
+                    "lower and upper bounds cannot be set to None, either one of them must be set"
+                )
             )
 
         if self.lower_bound is not None:
